@@ -300,14 +300,35 @@ def r3_lazy_tool_reset(ctx, sym):
     mod = ctx.repo.module(REPORT)
     gi = mod.func('Report.__getitem__')
     ctx.analysed_function(mod, gi)
-    ok = False
-    for n in body_walk(gi):
-        if isinstance(n, ast.If) and norm(n.test) == 'tool_name not in self._tool_data':
-            ok = any(norm(c.func) == 'self.TOOLS[tool_name].reset' and norm(kw(c, 'report')) == 'self'
-                     for c in calls(n))
-    ctx.check(ok, 'R3', 'Report.__getitem__:lazy-reset', mod, gi,
-              "tool data is not (re)initialised through TOOLS[name].reset(report=self) when absent",
-              "a tool keeps the previous submission's data after clear()")
+    from .. import symexec
+    from ..fdeval import Obj, Raised, Inconclusive
+    for present in (False, True):
+        rec = symexec.Recorder()
+        fresh = {'fresh': True}
+        me = symexec.self_obj(mod, 'Report', _tool_data=({'tifa': {'stale': True}} if present else {}))
+
+        def reset(*a, **k):
+            rec.events.append(('reset', a, k))
+            me.attrs['_tool_data']['tifa'] = fresh
+        tool = Obj('tool')
+        symexec.method(tool, 'reset', reset)
+        me.attrs['TOOLS'] = {'tifa': tool}
+        symexec.method(me, '__setitem__', lambda k, v: me.attrs['_tool_data'].__setitem__(k, v))
+        fd = symexec.new_fd(sym, mod)
+        got, raised = symexec.run(fd, gi, ['tifa'], bound_self=me, what='Report.__getitem__')
+        resets = rec.named('reset')
+        if present:
+            ok = raised is None and not resets and got == {'stale': True}
+            want = "return the tool's data without resetting it"
+        else:
+            ok = raised is None and len(resets) == 1 and got is fresh and (
+                me in resets[0][1] or any(v is me for v in resets[0][2].values()))
+            want = "reset the tool for this report once and return the fresh data"
+        ctx.check(ok, 'R3', 'Report.__getitem__:lazy-reset[data %s]' % ('present' if present else 'absent'), mod, gi,
+                  "report['tifa'] with the tool's data %s performs %d reset(s)%s; it must %s" % (
+                      'present' if present else 'absent (after clear())', len(resets),
+                      '' if raised is None else ' and raises %s' % raised.kind, want),
+                  "a tool keeps the previous submission's data after clear()")
     n = 0
     for m in ctx.repo.modules.values():
         for c in ast.walk(m.tree):
@@ -332,8 +353,15 @@ def r3_lazy_tool_reset(ctx, sym):
                           "fresh object", "objects cached by the tool for the previous submission stay reachable")
     ctx.floor('R3', 'registered tools', n, 5)
     clear = mod.func('Report.clear')
-    ctx.check(any(norm(c.func) == 'self._tool_data.clear' for c in calls(clear)), 'R3', 'Report.clear:tool-data', mod,
-              clear, "clear() does not empty the tool data", "every tool keeps the previous submission's data")
+    me = symexec.self_obj(mod, 'Report', _tool_data={'tifa': {'stale': True}}, __open__=True)
+    me.attrs['__unknown_method__'] = lambda name, *a, **k: None
+    try:
+        symexec.new_fd(sym, mod).call_function(clear, [], bound_self=me)
+        emptied = not me.attrs.get('_tool_data')
+    except (Raised, Inconclusive):
+        emptied = any(norm(c.func) == 'self._tool_data.clear' for c in calls(clear))
+    ctx.check(emptied, 'R3', 'Report.clear:tool-data', mod, clear, "clear() does not empty the tool data",
+              "every tool keeps the previous submission's data")
 
 
 def r4_entry_points(ctx, sym):
@@ -342,14 +370,37 @@ def r4_entry_points(ctx, sym):
     emod = ctx.repo.module(ENVIRONMENT)
     init = emod.func('Environment.__init__')
     ctx.analysed_function(emod, init)
-    g = CFG(init)
-    clears = g.nodes_calling(lambda c: norm(c.func) in ('report.clear', 'self.report.clear'))
-    ctxs = g.nodes_calling(lambda c: norm(c.func) in ('self.report.contextualize', 'report.contextualize'))
-    ok = bool(clears) and bool(ctxs) and all(g.dominates(clears, x) for x in ctxs) and \
-        g.exit.id not in g.reachable([g.entry], clears)
-    ctx.check(ok, 'R4', 'Environment.__init__:clear-before-contextualize', emod, init,
-              "the environment does not clear the report on every path before attaching the new submission",
-              "feedback, suppressions and tool data of the previous submission are resolved together with the new one")
+    from .. import symexec
+    from ..fdeval import Obj, Raised, Inconclusive
+    given = Obj('Submission', files={'answer.py': 'x = 1'})
+    configs = {
+        'a Submission object': dict(files=given),
+        'main_code': dict(main_code='x = 1'),
+        'files dict': dict(files={'answer.py': 'x = 1'}),
+        'main_file to load': dict(main_file='answer.py'),
+        'files dict without the main file': dict(files={'other.py': 'y = 2'}, main_code='x = 1'),
+    }
+    for cname, kwargs in configs.items():
+        rec = symexec.Recorder()
+        report = Obj('report')
+        symexec.method(report, 'clear', rec.stub('clear'))
+        symexec.method(report, 'contextualize', rec.stub('contextualize'))
+        me = symexec.self_obj(emod, 'Environment')
+        symexec.method(me, 'load_main', lambda f: 'x = 1')
+        fd = symexec.new_fd(sym, emod, calls={
+            'Submission': lambda *a, **k: Obj('Submission', args=a, kwargs=k),
+            'isinstance': lambda o, t: (o is given) if t == 'Submission-class' else (
+                isinstance(o, t) if isinstance(t, (type, tuple)) else False)},
+            extra={'Submission': 'Submission-class', 'MAIN_REPORT': report, 'Exception': Exception})
+        _, raised = symexec.run(fd, init, [], dict(kwargs, report=report), bound_self=me, what='Environment.__init__')
+        order = [e[0] for e in rec.events]
+        ok = raised is None and order == ['clear', 'contextualize'] and \
+            rec.named('contextualize')[0][1][:1] == (me.attrs.get('submission'),)
+        ctx.check(ok, 'R4', 'Environment.__init__:clear-before-contextualize[%s]' % cname, emod, init,
+                  "an environment set up from %s performs %s on the report%s; it must clear it once and then attach "
+                  "the new submission" % (cname, order, '' if raised is None else ' and raises %s' % raised.kind),
+                  "feedback, suppressions and tool data of the previous submission are resolved together with the new "
+                  "one")
     base = sym.find_class(ENVIRONMENT, 'Environment')
     subs = sym.subclasses(base, strict=True)
     ctx.floor('R4', 'Environment subclasses', len(subs), 6)
@@ -371,17 +422,26 @@ def r4_entry_points(ctx, sym):
     cmod = ctx.repo.module(COMMANDS)
     cr = cmod.func('contextualize_report')
     ctx.analysed_function(cmod, cr)
-    g = CFG(cr)
-    d = dict(zip([a.arg for a in cr.args.args][len(cr.args.args) - len(cr.args.defaults):], cr.args.defaults))
-    guarded = [n for n in body_walk(cr) if isinstance(n, ast.If) and norm(n.test) == 'clear'
-               and any(norm(c.func) == 'report.clear' for c in calls(n))]
-    ctxs = [n for n in cr.body if isinstance(n, ast.Expr) and 'contextualize' in norm(n)]
-    ok = isinstance(d.get('clear'), ast.Constant) and d['clear'].value is True and len(guarded) == 1 and ctxs and \
-        cr.body.index(guarded[0]) < cr.body.index(ctxs[0])
-    ctx.check(ok, 'R4', 'contextualize_report:clears-by-default', cmod, cr,
-              "contextualize_report does not clear the report by default before attaching the submission",
-              "a second contextualize_report() keeps the first submission's feedback")
-
+    for cname, kwargs, want in (('default', {}, ['clear', 'contextualize']),
+                                ('clear=True', {'clear': True}, ['clear', 'contextualize']),
+                                ('clear=False', {'clear': False}, ['contextualize'])):
+        for sub_kind in ('text', 'Submission'):
+            rec = symexec.Recorder()
+            report = Obj('report')
+            symexec.method(report, 'clear', rec.stub('clear'))
+            symexec.method(report, 'contextualize', rec.stub('contextualize'))
+            given = Obj('Submission')
+            fd = symexec.new_fd(sym, cmod, calls={
+                'Submission': lambda *a, **k: Obj('Submission', args=a, kwargs=k),
+                'isinstance': lambda o, t: (o is given) if t == 'Submission-class' else False},
+                extra={'Submission': 'Submission-class', 'MAIN_REPORT': report})
+            _, raised = symexec.run(fd, cr, [given if sub_kind == 'Submission' else 'x = 1'],
+                                    dict(kwargs, report=report), what='contextualize_report')
+            order = [e[0] for e in rec.events]
+            ctx.check(raised is None and order == want, 'R4', 'contextualize_report[%s,%s]' % (cname, sub_kind), cmod,
+                      cr, "contextualize_report(<%s>, %s) performs %s on the report%s; expected %s" % (
+                          sub_kind, cname, order, '' if raised is None else ' and raises %s' % raised.kind, want),
+                      "a second contextualize_report() keeps the first submission's feedback")
 
 def r5_overrides(ctx, sym):
     from .c20 import r7_overrides
